@@ -46,6 +46,8 @@ pub enum ObsKind {
     NotifOpenFailure { peer: PeerId, error: String },
     NotifReceived { peer: PeerId, data: Vec<u8> },
     NotifApi { what: String, ok: bool },
+    /// a burst of sends through one mode: tags accepted (in order), tags refused with the reason, longest single call
+    NotifBurst { peer: PeerId, sync: bool, accepted: Vec<u64>, refused: Vec<(u64, String)>, max_call_us: u64 },
     // kademlia
     KadEvent { query: Option<usize>, kind: String, detail: String },
     KadStarted { query: usize, what: String },
@@ -82,6 +84,8 @@ pub enum Cmd {
     NotifClose(PeerId),
     NotifSendSync { peer: PeerId, data: Vec<u8> },
     NotifSendAsync { peer: PeerId, data: Vec<u8> },
+    /// send `count` notifications with tags first_tag.. of `size` bytes each (see `notif_payload`) through one mode
+    NotifBurst { peer: PeerId, sync: bool, first_tag: u64, count: u32, size: u32 },
     NotifSetPolicy(u8),
     /// answer a pending validation for `peer` now
     NotifAnswer { peer: PeerId, accept: bool },
@@ -508,6 +512,37 @@ async fn node_main(
                             push(&log, index, ObsKind::NotifApi { what: format!("{what} {}", tag_of(&data)), ok });
                         }
                     }
+                    Cmd::NotifBurst { peer, sync, first_tag, count, size } => {
+                        if let Some(h) = notif.as_mut() {
+                            let mut accepted = Vec::new();
+                            let mut refused = Vec::new();
+                            let mut max_call_us = 0u64;
+                            for k in 0..count as u64 {
+                                let tag = first_tag + k;
+                                let data = notif_payload(tag, size as usize);
+                                if sync {
+                                    let started = Instant::now();
+                                    let r = h.send_sync_notification(peer, data);
+                                    max_call_us = max_call_us.max(started.elapsed().as_micros() as u64);
+                                    match r {
+                                        Ok(()) => accepted.push(tag),
+                                        Err(NotificationError::ChannelClogged) => refused.push((tag, "clogged".to_string())),
+                                        Err(e) => refused.push((tag, format!("{e:?}"))),
+                                    }
+                                } else {
+                                    match tokio::time::timeout(Duration::from_secs(2), h.send_async_notification(peer, data)).await {
+                                        Ok(Ok(())) => accepted.push(tag),
+                                        Ok(Err(e)) => refused.push((tag, format!("{e:?}"))),
+                                        Err(_) => {
+                                            refused.push((tag, "timeout".to_string()));
+                                            break;
+                                        }
+                                    }
+                                }
+                            }
+                            push(&log, index, ObsKind::NotifBurst { peer, sync, accepted, refused, max_call_us });
+                        }
+                    }
                     Cmd::NotifSetPolicy(p) => notif_policy = p,
                     Cmd::NotifAnswer { peer, accept } => {
                         if let Some(h) = notif.as_mut() {
@@ -608,6 +643,20 @@ async fn node_main(
 
 fn rid(id: RequestId) -> usize {
     id.verif_raw()
+}
+
+/// Notification body for a tag: 8 bytes tag (LE), then a deterministic filler derived from the tag.
+pub fn notif_payload(tag: u64, size: usize) -> Vec<u8> {
+    let mut v = vec![0u8; size.max(8)];
+    v[0..8].copy_from_slice(&tag.to_le_bytes());
+    let mut x = tag.wrapping_mul(0x9E37_79B9_7F4A_7C15) ^ 0xD1B5_4A32_D192_ED03;
+    for b in v[8..].iter_mut() {
+        x ^= x << 13;
+        x ^= x >> 7;
+        x ^= x << 17;
+        *b = x as u8;
+    }
+    v
 }
 
 fn tag_of(data: &[u8]) -> String {
